@@ -28,6 +28,14 @@ fn main() {
         Some(p) => nv::report::parse_known(&std::fs::read_to_string(&p).unwrap_or_default()),
         None => vec![],
     };
+    // a replay is strict (nothing is filtered); a directed probe filters every listed finding but its own
+    let known: Vec<Known> = if arg(&args, "--replay").is_some() {
+        vec![]
+    } else if let Some(which) = arg(&args, "--probe-known") {
+        known.into_iter().map(|mut k| { if k.id == which { k.status = "probe".to_string(); } k }).collect()
+    } else {
+        known
+    };
     let out = arg(&args, "--out");
     nv::node::cap_memory(12 << 30);
     let ctx = Ctx::new(&prop, tier, seed, worker, workers, known);
@@ -60,7 +68,7 @@ fn main() {
     } else if let Some(which) = arg(&args, "--probe-known") {
         // directed probe: replay the stored case of one listed known finding (its NUN_* env is set by the driver)
         let mut reproduced = vec![];
-        for k in ctx.known.iter().filter(|k| k.property == prop && k.status == "known" && k.id == which) {
+        for k in ctx.known.iter().filter(|k| k.property == prop && k.status == "probe" && k.id == which) {
             match nv::props::replay(&ctx, &prop, &k.engine, &k.probe) {
                 Ok(Some((sig, _))) if sig == k.sig => reproduced.push(k.id.clone()),
                 Ok(Some((sig, detail))) => rep.notes.push(format!("probe {} failed with a different signature: {} ({})", k.id, sig, detail)),
